@@ -77,6 +77,30 @@ class Scratch:
 
 
 # --------------------------------------------------------------------------------------------
+# TLAPS driver (proof modules under spec/proofs)
+# --------------------------------------------------------------------------------------------
+def run_tlapm(module, timeout=900):
+    """Run the TLA+ proof system on spec/proofs/<module>.tla in a scratch copy (no cached fingerprints).
+    Returns (number of obligations proved, output); raises MachineryError unless ALL obligations are proved."""
+    with Scratch("tlapm") as d:
+        for f in os.listdir(os.path.join(SPEC, "proofs")):
+            if f.endswith(".tla"):
+                shutil.copy(os.path.join(SPEC, "proofs", f), d)
+        t0 = time.time()
+        try:
+            pr = subprocess.run(["tlapm", "--cleanfp", "--strict", "-I", SPEC, module + ".tla"], cwd=d, stdout=subprocess.PIPE, stderr=subprocess.STDOUT,
+                                timeout=timeout, text=True)
+        except subprocess.TimeoutExpired:
+            raise MachineryError(f"tlapm timed out on {module}")
+        out = pr.stdout
+    m = re.search(r"All (\d+) obligations? proved", out)
+    if pr.returncode != 0 or not m:
+        print(out[-3000:])
+        raise MachineryError(f"tlapm did not prove every obligation of {module}")
+    return int(m.group(1)), out, time.time() - t0
+
+
+# --------------------------------------------------------------------------------------------
 # TLC driver
 # --------------------------------------------------------------------------------------------
 class TlcResult:
